@@ -212,6 +212,18 @@ theorem C15_limit_fills_exactly_sell (c : TokenCfg) (s s' : DState) (r : Req) (f
       simp only [normInstr_mark, exact_num, NumCtx.exact_div] at hmem
       exact ⟨hm0, of_decide_eq_true (List.mem_filter.mp hmem).2⟩
 
+/-- **a limit-priced buy fills at a level within ±0.1 % of the requested price**, only if that level shows at least the
+    (rounded) amount, and as exactly one fill of that amount (the `price_in_token` buy case of `C15_limit_fills_exactly_buy`) -/
+theorem C15_limit_price_within_tolerance (c : TokenCfg) (s s' : DState) (r : Req) (p : Rat) (fills : List Fill) (fee : Rat)
+    (hp : r.priceTok = some p) (h : buy DCtx.exact c s r = (.ok (.trade fills fee), s')) :
+    ∃ ins l, findInstr s.book r.name = some ins ∧ l ∈ normSide DCtx.exact true ins.asks ∧
+      (1 - 1 / 1000) * p < l.price ∧ l.price < (1 + 1 / 1000) * p ∧ roundDec c.tradeExp r.amount ≤ l.size ∧
+      fills = [⟨l.price, roundDec c.tradeExp r.amount⟩] := by
+  obtain ⟨ins, q, hf, ht, _, l, hl, hfills, h1, h2, h3, _⟩ :=
+    C15_limit_fills_exactly_buy c s s' r fills fee (Or.inl (by simp [hp])) h
+  have hq := ht p hp
+  subst hq
+  exact ⟨ins, l, hf, hl, h1, h2, h3, hfills⟩
 /-- the total filled by an accepted limit buy is the rounded amount: the hypothesis `hfs` of `C15_buy_position` -/
 theorem C15_limit_buy_fills_rounded_amount (c : TokenCfg) (s s' : DState) (r : Req) (fills : List Fill) (fee : Rat)
     (hlim : r.isLimit) (h : buy DCtx.exact c s r = (.ok (.trade fills fee), s')) :
